@@ -1025,6 +1025,12 @@ class DynReferenceElement(LFRicCollection):
             # remove duplicates with an OrderedDict
             nface_vars = list(OrderedDict.fromkeys(
                 self._arg_properties.values()))
+            if (self._nfaces_h_required and
+                    self._nfaces_h_symbol not in nface_vars):
+                # The number of 'horizontal' faces is also required (by a
+                # mesh property) but by none of the reference-element
+                # properties.
+                nface_vars.append(self._nfaces_h_symbol)
         elif self._nfaces_h_required:
             # We only need the number of 'horizontal' faces
             nface_vars = [self._nfaces_h_symbol]
